@@ -41,6 +41,10 @@ typedef struct {
 			   isolation standard (match on both ports, explicit
 			   zeros between them) that is the only witness of
 			   the leakage terms and comes last */
+    double gain;	/* where not 0: every reading of the instrument is
+			   multiplied by this (receivers behind 120 dB of
+			   loss): the determinant of a minimal set scales with
+			   a power of it, its condition does not */
 } shape_t;
 
 static const shape_t shapes_quick[] = {
@@ -91,6 +95,12 @@ static const shape_t shapes_quick[] = {
     { VNACAL_U8, 1, 1, 0, 0, 0, 0, 1 },
     { VNACAL_T8, 2, 2, 0, 0, 0, 0, 2 },   { VNACAL_E12, 2, 2, 0, 0, 0, 0, 2 },
     { VNACAL_UE10, 1, 1, 0, 0, 0, 0, 2 }, { VNACAL_U16, 1, 1, 0, 0, 0, 0, 2 },
+    /* readings of the order of 1e-6 */
+    { .type = VNACAL_T8, .rows = 2, .cols = 2, .gain = 1e-6 },
+    { .type = VNACAL_TE10, .rows = 2, .cols = 2, .gain = 1e-6 },
+    { .type = VNACAL_UE14, .rows = 2, .cols = 2, .gain = 1e-6 },
+    { .type = VNACAL_E12, .rows = 2, .cols = 2, .gain = 1e-6 },
+    { .type = VNACAL_U8, .rows = 1, .cols = 1, .gain = 1e-6 },
 };
 #define NSHAPE_QUICK ((int)(sizeof(shapes_quick) / sizeof(shapes_quick[0])))
 static const shape_t shapes_more[] = {
@@ -485,6 +495,7 @@ static void run(int tier, long idx, vf_result *r)
     /* handles start at 3, 8 or 16, by case number */
     static const int fillers[3] = { 0, 5, 13 };
     cs_param_fillers = fillers[idx % 3];
+    cs_receiver_gain = 0.0;
     const int descending = (int)((idx / 3) & 1);
 
     while (idx >= ubase[shp + 1])
@@ -498,6 +509,7 @@ static void run(int tier, long idx, vf_result *r)
        grows to */
     if (sh->kit)
 	cs_param_fillers = 13;
+    cs_receiver_gain = sh->gain;
     int nL = universe(&uni, sh, tier);
     if (descending)
 	reverse_port_lists(&uni);
